@@ -498,5 +498,9 @@ Definition ev_eqb (a b : ev) : bool :=
   | _, _ => false
   end.
 
+(* the state reached by a schedule (entries that are not enabled are skipped) *)
+Definition final (cul : bool) (cfg : list tcfg) (sch : list (nat * choice)) : st :=
+  fst (run (sys cul cfg) (init cfg) sch).
+
 Definition replay_rv (cul : bool) (cfg : list tcfg) (tr : list (nat * choice * ev)) : option st + nat :=
   replay (sys cul cfg) ev_eqb (init cfg) tr.
